@@ -65,11 +65,16 @@ Fixpoint fire (q : quirks) (kgf : bytes -> N) (fuel : nat) (wm : Z) (n : nat) (d
       end
   end.
 
-Definition advance (q : quirks) (kgf : bytes -> N) (sender : N) (wm : Z) (during : list (nat * bytes * Z)) (st : sys) : list (bytes * Z) * sys :=
+(* [stop = Some k]: the consumer of the iterator breaks out of its range loop in the body of the k-th item (after its own
+   SetTimer calls for that item); k = 0: the iterator is never run (the watermark is recorded all the same).  The current
+   code deletes a timer from the store BEFORE it yields it, so what was handed out is gone and what was not is untouched:
+   the stopped loop is [fire] with exactly k rounds of fuel. *)
+Definition advance (q : quirks) (kgf : bytes -> N) (stop : option nat) (sender : N) (wm : Z) (during : list (nat * bytes * Z)) (st : sys) : list (bytes * Z) * sys :=
   let '(r, d) := st in
   let ups := ups_set sender wm (r_ups r) in
   let cw := ups_min ups in
-  let '(out, s', d') := fire q kgf (S (length d + length during)) cw O during (r_store r) d [] in
+  let fuel := match stop with None => S (length d + length during) | Some k => k end in
+  let '(out, s', d') := fire q kgf fuel cw O during (r_store r) d [] in
   (out, ({| r_store := s'; r_ups := ups; r_wm := cw |}, d')).
 
 (* histories *)
@@ -77,6 +82,7 @@ Inductive op :=
 | SetTimer (key : bytes) (t : Z)
 | Advance (sender : N) (wm : Z)
 | AdvanceSet (sender : N) (wm : Z) (during : list (nat * bytes * Z))   (* SetTimer (key, t) right after the n-th yield *)
+| AdvancePartial (sender : N) (wm : Z) (k : nat) (during : list (nat * bytes * Z))   (* the consumer stops after k items *)
 | Restore.    (* checkpoint + restore: a new TimerStore and TimerRegistry over the DB content at this point *)
 
 Record config := { cf_q : quirks; cf_kgf : bytes -> N; cf_start : N; cf_size : N; cf_cache : N; cf_srids : list N }.
@@ -87,8 +93,9 @@ Definition sys_new (c : config) (d : db) : sys :=
 Definition step (c : config) (o : op) (st : sys) : list (list (bytes * Z)) * sys :=
   match o with
   | SetTimer k t => ([], set_timer (cf_q c) (cf_kgf c) k t st)
-  | Advance s wm => let '(out, st') := advance (cf_q c) (cf_kgf c) s wm [] st in ([out], st')
-  | AdvanceSet s wm during => let '(out, st') := advance (cf_q c) (cf_kgf c) s wm during st in ([out], st')
+  | Advance s wm => let '(out, st') := advance (cf_q c) (cf_kgf c) None s wm [] st in ([out], st')
+  | AdvanceSet s wm during => let '(out, st') := advance (cf_q c) (cf_kgf c) None s wm during st in ([out], st')
+  | AdvancePartial s wm k during => let '(out, st') := advance (cf_q c) (cf_kgf c) (Some k) s wm during st in ([out], st')
   | Restore => ([], sys_new c (snd st))
   end.
 
